@@ -58,6 +58,14 @@ func GenProject(r *core.Rng, flavour string) Project {
 			cycleTo = r.Intn(cycleFrom)
 		}
 	}
+	// a module that does not exist, imported by two or more modules (which one is
+	// asked to parse it first is a matter of scheduling)
+	ghostMods := map[int]bool{}
+	if flavour == "errors" && n >= 3 && r.Chance(1, 2) {
+		for len(ghostMods) < 2+r.Intn(2) && len(ghostMods) < n {
+			ghostMods[r.Intn(n)] = true
+		}
+	}
 	errMods := map[int]bool{}
 	if flavour == "errors" {
 		k := r.Range(1, n)
@@ -83,6 +91,9 @@ func GenProject(r *core.Rng, flavour string) Project {
 		}
 		if i == cycleFrom {
 			fmt.Fprintf(&b, "import \"q/%s\";\n", name(cycleTo))
+		}
+		if ghostMods[i] {
+			b.WriteString("import \"q/ghost\";\n")
 		}
 		b.WriteString("\n")
 		ref := func(j int) string {
